@@ -38,7 +38,7 @@ Definition enc_broadcast (b : option broadcast) : list N :=
   end.
 
 Definition enc_response (r : response) : list N :=
-  enc_handshake (r_hs r) :: enc_hresp (r_resp r) ++ enc_broadcast (broadcast_of (r_resp r)).
+  enc_handshake (r_hs r) :: enc_hresp (r_resp r).
 
 Definition enc_revent (e : revent) : list N :=
   match e with
